@@ -88,7 +88,10 @@ class Ctx:
             self._cfgs[k] = CFG(body)
         return self._cfgs[k]
 
-    def paths(self, f, body, inline='none', max_visits=2, modset=None):
+    def paths(self, f, body, inline='none', max_visits=None, modset=None):
+        if max_visits is None:
+            # thorough: loops are traversed up to twice per path (three visits of the head) instead of once
+            max_visits = 3 if self.tier == 'thorough' else 2
         if isinstance(body, str):
             body = f.fn(body)
         pol = with_helpers(INLINE[inline] if isinstance(inline, str) else inline)
@@ -96,6 +99,10 @@ class Ctx:
         if key not in self._paths:
             ex = Executor(f, inline=pol, max_visits=max_visits, modset=modset)
             self._paths[key] = ex.run(body)
+            st = self.report.meta.setdefault('path_enumeration', {'functions': 0, 'paths': 0, 'events': 0})
+            st['functions'] += 1
+            st['paths'] += len(self._paths[key])
+            st['events'] += sum(len(p.events) for p in self._paths[key])
         return self._paths[key]
 
 
@@ -134,7 +141,64 @@ def main(argv):
         traceback.print_exc()
         rep.violation(prop + '-ENGINE', '-', 'exception:' + type(e).__name__,
                       'rule module raised %r (fail closed)' % (e,))
+    if tier == 'thorough' and not os.environ.get('VERIF_NO_CANARY'):
+        try:
+            run_canaries(prop, rep)
+        except Exception as e:   # the self-test must never mask the verdict on the real tree
+            rep.meta['canaries'] = {'error': repr(e)}
     return rep.finish(known)
+
+
+def run_canaries(prop, rep, limit=4):
+    """Thorough tier: show on this very tree that the check can fire. A few single-site breakages from the mutant corpus
+    that are listed for this property are applied to scratch copies of the repository; the check (quick tier, separate
+    process, output captured) must report a violation on each. A canary whose source pattern no longer occurs is
+    skipped; a canary that applies but is not reported means the check has lost its teeth and fails closed."""
+    import shutil
+    import subprocess
+    import tempfile
+    here = os.path.dirname(os.path.dirname(os.path.abspath(__file__)))
+    sys.path.insert(0, os.path.join(here, 'selftest'))
+    import mutants as M
+    repo = exporter.repo_dir()
+    chosen = [m for m in M.MUTANTS if prop in m['props'] and m['edits'] and not m.get('revert')][:limit]
+    res = []
+    for m in chosen:
+        d = tempfile.mkdtemp(prefix='verif-canary-')
+        try:
+            subprocess.check_call(['rsync', '-a', '--exclude', 'target', '--exclude', '.git', repo + '/', d + '/'])
+            applicable = True
+            for e in m['edits']:
+                pth = os.path.join(d, e[0])
+                src = open(pth).read()
+                if src.count(e[1]) != 1:
+                    applicable = False
+                    break
+                open(pth, 'w').write(src.replace(e[1], e[2]))
+            if not applicable:
+                res.append({'canary': m['name'], 'status': 'skipped: pattern not present in this tree'})
+                continue
+            env = dict(os.environ, VERIF_REPO=d, VERIF_EVIDENCE_DIR=os.path.join(d, '.evidence'), VERIF_TIER='quick',
+                       VERIF_NO_CANARY='1')
+            r = subprocess.run([sys.executable, '-m', 'rules.run', prop, '--tier', 'quick'], cwd=here, env=env,
+                               stdout=subprocess.PIPE, stderr=subprocess.STDOUT, text=True)
+            fired = r.returncode == 1 and 'VIOLATION' in r.stdout
+            rules = sorted({l.split('rule=')[1].split()[0] for l in r.stdout.splitlines() if 'rule=' in l})
+            if r.returncode == 3:
+                res.append({'canary': m['name'], 'status': 'skipped: mutated tree does not compile'})
+            else:
+                res.append({'canary': m['name'], 'why': m['why'], 'status': 'reported' if fired else 'NOT REPORTED', 'rules': rules})
+                if not fired:
+                    rep.violation(prop + '-SELFTEST', '-', 'canary:' + m['name'], 'the check did not report a seeded breakage '
+                                  'it is known to catch (%s): it has lost its teeth on this tree' % m['why'])
+        finally:
+            shutil.rmtree(d, ignore_errors=True)
+            import glob
+            import hashlib
+            tag = hashlib.sha1(os.path.abspath(d).encode()).hexdigest()[:8]
+            for t in glob.glob(os.path.join(exporter.CACHE, 'target', '*-' + tag)):
+                shutil.rmtree(t, ignore_errors=True)
+    rep.meta['canaries'] = res
 
 
 if __name__ == '__main__':
